@@ -6,7 +6,9 @@
 //!      never a panic; with a sink that accepts ONE BYTE PER CALL the output must be complete and identical;
 //!  (2) read back (data set in the three transfer syntaxes, and the complete file) from a source that
 //!      reports an I/O error once offset k is reached — for every k below the length: an error, never Ok
-//!      with a partial object and never a panic.
+//!      with a partial object and never a panic;
+//!  (3) a stream of three PDUs received through `read_pdu_from_wire` from a transport that fails at offset k, for every k and
+//!      three segment sizes: the PDUs that lie completely before the failure are received, then an error.
 use dicom_core::value::{DataSetSequence, PixelFragmentSequence, Value};
 use dicom_core::{dicom_value, DataElement, Length, PrimitiveValue, Tag, VR};
 use dicom_object::{FileMetaTableBuilder, InMemDicomObject};
@@ -155,6 +157,50 @@ fn main() {
         let bytes = sweep_write(&mut t, &format!("writing a {}", what), &|s: &mut Sink| file.write_all(s).map_err(|e| e.to_string()));
         if let Some(bytes) = bytes {
             sweep_read(&mut t, &format!("reading a {}", what), &bytes, &|src: Source| dicom_object::from_reader(src).map(|_| ()).map_err(|e| e.to_string()));
+        }
+    }
+    // (3) receiving PDUs: a stream of three PDUs read through read_pdu_from_wire from a source that reports an I/O error at
+    // offset k (for every k) in segments of 1 / 7 / all bytes: the PDUs that lie completely before k are received, the next
+    // receive is an error — never a wrong PDU, never a panic
+    {
+        use dicom_ul::association::read_pdu_from_wire;
+        use dicom_ul::pdu::{write_pdu, AbortRQSource, PDataValue, PDataValueType, Pdu, MAXIMUM_PDU_SIZE};
+        struct Seg<'a> { data: &'a [u8], pos: usize, fail_at: usize, step: usize }
+        impl Read for Seg<'_> {
+            fn read(&mut self, buf: &mut [u8]) -> std::io::Result<usize> {
+                if self.pos >= self.fail_at { return Err(std::io::Error::new(std::io::ErrorKind::ConnectionReset, "transport failure")); }
+                let n = buf.len().min(self.step).min(self.fail_at - self.pos).min(self.data.len() - self.pos);
+                buf[..n].copy_from_slice(&self.data[self.pos..self.pos + n]);
+                self.pos += n;
+                Ok(n)
+            }
+        }
+        let pdus = vec![
+            Pdu::ReleaseRQ,
+            Pdu::PData { data: vec![PDataValue { presentation_context_id: 1, value_type: PDataValueType::Data, is_last: true, data: vec![1, 2, 3, 4, 5] }] },
+            Pdu::AbortRQ { source: AbortRQSource::ServiceUser },
+        ];
+        let mut stream = Vec::new();
+        let mut ends = Vec::new();
+        for p in &pdus { write_pdu(&mut stream, p).expect("write"); ends.push(stream.len()); }
+        for step in [1usize, 7, 1 << 20] {
+            for k in 0..stream.len() {
+                t.cases += 1;
+                let mut src = Seg { data: &stream, pos: 0, fail_at: k, step };
+                let mut buffer = bytes::BytesMut::new();
+                let complete = ends.iter().filter(|e| **e <= k).count();
+                let r = std::panic::catch_unwind(std::panic::AssertUnwindSafe(|| {
+                    let mut got = Vec::new();
+                    for _ in 0..pdus.len() + 1 { match read_pdu_from_wire(&mut src, &mut buffer, MAXIMUM_PDU_SIZE, true) { Ok(p) => got.push(p), Err(_) => break } }
+                    got
+                }));
+                match r {
+                    Ok(got) => if got.len() > complete || got[..] != pdus[..got.len()] || got.len() < complete {
+                        t.fail(format!("receiving PDUs, transport failing at byte offset {} of {} (segments of {} bytes): {} PDUs received ({:?}), {} lie completely before the failure", k, stream.len(), step, got.len(), got.iter().map(|p| p.short_description().to_string()).collect::<Vec<_>>(), complete));
+                    },
+                    Err(_) => t.fail(format!("receiving PDUs: panic when the transport failed at byte offset {} (segments of {} bytes)", k, step)),
+                }
+            }
         }
     }
     println!("EXHAUSTIVE unit=C34.io_failures cases={} mismatches={}", t.cases, t.bad);
